@@ -59,7 +59,11 @@ def run(ctx, rep: Report, deep: bool = False):
     for nt in range(1, 7):
         for rep_i in range(1 if ctx.quick and not deep else 4):
             name = rng.choice(FC.NAMES)  # S120: bin names with blanks, as ripping tools write them
-            lines, _ = FC.canonical(rng, nt, name=name)
+            # S124: times of 100 minutes and more (three-digit minute fields), also straddling 99:59 -> 100:00
+            first = rng.choice([None, None, 100 * 60 * 75 - rng.randint(0, 60), rng.randint(100 * 60 * 75, 999 * 60 * 75)])
+            lines, _ = FC.canonical(rng, nt, name=name, first=first)
+            if first is not None:
+                rep.feat("minutes_100_and_more")
             cm = FC.meaning_real(list(lines))
             rep.feat("canonical_sheets")
             if " " in name:
@@ -99,7 +103,7 @@ def run(ctx, rep: Report, deep: bool = False):
     text_probe(rep, rng)
     if ctx.model_available:
         compare_family(rep, "cue", cases, nontrivial=lambda c: "track" in c.impl)
-    rep.required_features = ["bin_name_with_blanks", "variant_case", "variant_blanks", "variant_blankline", "variant_unknown", "variant_mixed", "malformed_sheets"]
+    rep.required_features = ["bin_name_with_blanks", "minutes_100_and_more", "variant_case", "variant_blanks", "variant_blankline", "variant_unknown", "variant_mixed", "malformed_sheets"]
 
 
 def search(ctx, rep: Report):
